@@ -1,6 +1,7 @@
 (* C18 - tick injection over the block structure: the two walks of Device/DLCDInject.v refine the flat
    injection rule of Device/DLCDAnim.v, so that rule's theorems hold for call sites at any depth in any
-   body of any block kind (except handlers included). *)
+   body of any block kind (except handlers included), before the main loop, inside it and inside function
+   bodies. *)
 From Coq Require Import ZArith List Bool Lia.
 From RV Require Import Host.LCDAnim Device.DLCDAnim Device.DLCDInject Proofs.LCDAnimP.
 Import ListNotations.
@@ -131,19 +132,48 @@ Lemma reg_counter_nil name : reg_counter name [] = 0.
 Proof. reflexivity. Qed.
 
 (* ---- refinement: the tree walks compute the flat rule on the call sites in source order *)
+Lemma tree_registry_flat setup loop : tree_registry setup loop = reg_sites (flats setup ++ flats loop) [].
+Proof. unfold tree_registry. rewrite !emit_block_flat, <- reg_sites_app. reflexivity. Qed.
+
 Lemma tree_loop_ticks_flat setup loop :
   tree_loop_ticks setup loop = loop_ticks (flats setup) (flats loop).
 Proof.
   unfold tree_loop_ticks, loop_ticks. rewrite parser_ticks_flat. apply flat_map_ext. intro name.
-  rewrite emit_block_flat, of_name_reg_sites. reflexivity.
+  rewrite tree_registry_flat, of_name_reg_sites. reflexivity.
 Qed.
 
-Lemma tree_all_vars_flat setup loop :
-  tree_all_vars setup loop = all_vars (flats setup) (flats loop).
+(* the names in the registry are names of call sites *)
+Lemma reg_sites_names sites : forall r v, In v (reg_sites sites r) -> In v r \/ In (fst (fst v)) (map fst sites).
 Proof.
-  unfold tree_all_vars, all_vars. rewrite parser_ticks_flat. apply flat_map_ext. intro name.
-  rewrite !emit_block_flat, <- reg_sites_app, of_name_reg_sites. reflexivity.
+  induction sites as [|[n sty] rest IH]; intros r v H; [left; exact H|].
+  unfold reg_sites in H. cbn [fold_left fst snd] in H. fold (reg_sites rest (r ++ [(n, reg_counter n r, sty)])) in H.
+  apply IH in H as [H|H].
+  - apply in_app_or in H as [H|[<-|[]]]; [left; exact H|]. right. left. reflexivity.
+  - right. right. exact H.
 Qed.
+
+(* grouping a registry by a list of names that covers it loses nothing and adds nothing *)
+Lemma In_grouped (r : registry) names :
+  (forall v, In v r -> In (fst (fst v)) names) ->
+  forall v, In v r <-> In v (flat_map (fun name => of_name name r) names).
+Proof.
+  intros Hc v. split; intro H.
+  - apply in_flat_map. exists (fst (fst v)). split; [apply Hc; exact H|].
+    unfold of_name. apply filter_In. split; [exact H|apply Z.eqb_refl].
+  - apply in_flat_map in H as (name & _ & H). unfold of_name in H. apply filter_In in H. exact (proj1 H).
+Qed.
+
+(* the declared globals (the registry) are exactly the variables ticked at the head of loop() *)
+Lemma tree_vars_ticked setup loop v : In v (tree_all_vars setup loop) <-> In v (tree_loop_ticks setup loop).
+Proof.
+  unfold tree_all_vars, tree_loop_ticks. apply In_grouped. intros w Hw.
+  rewrite parser_ticks_flat. apply In_sorted_set.
+  rewrite tree_registry_flat in Hw. apply reg_sites_names in Hw as [[]|Hw]. exact Hw.
+Qed.
+
+Lemma tree_all_vars_flat setup loop v :
+  In v (tree_all_vars setup loop) <-> In v (all_vars (flats setup) (flats loop)).
+Proof. rewrite tree_vars_ticked, tree_loop_ticks_flat, loop_ticks_all_vars. reflexivity. Qed.
 
 (* ---- [flats] really is "every call site at any depth" *)
 Lemma flats_In_body k bodies body b : In (SBlock k bodies) b -> In body bodies -> incl (flats body) (flats b).
@@ -182,69 +212,107 @@ Qed.
 
 (* ---- the theorems of Props/C18.v *)
 
-(* every tick call belongs to a call site of setup: the k-th site of display n, with that site's style *)
-Lemma reg_In_site name sites : forall k n k' sty,
-  In (n, k', sty) (registered name k sites) ->
-  n = name /\ exists pre post, sites = pre ++ (name, sty) :: post /\ k' = k + count_name name pre.
-Proof.
-  induction sites as [|[n0 s0] rest IH]; intros k n k' sty H; cbn [registered] in H; [destruct H|].
-  destruct (n0 =? name) eqn:E.
-  - apply Z.eqb_eq in E. subst n0. destruct H as [H|H].
-    + inversion H; subst. split; [reflexivity|]. exists [], rest. split; [reflexivity|]. unfold count_name. cbn. lia.
-    + apply IH in H as (-> & pre & post & -> & ->). split; [reflexivity|].
-      exists ((name, s0) :: pre), post. split; [reflexivity|]. rewrite count_name_cons. cbn [fst]. rewrite Z.eqb_refl. lia.
-  - apply IH in H as (-> & pre & post & -> & ->). split; [reflexivity|].
-    exists ((n0, s0) :: pre), post. split; [reflexivity|]. rewrite count_name_cons. cbn [fst]. rewrite E. lia.
-Qed.
+Lemma flats_app a b : flats (a ++ b) = flats a ++ flats b.
+Proof. unfold flats. apply flat_map_app. Qed.
 
-Lemma loop_tick_has_site setup loop n k sty :
-  In (n, k, sty) (loop_ticks setup loop) ->
-  exists pre post, setup = pre ++ (n, sty) :: post /\ k = count_name n pre.
-Proof.
-  unfold loop_ticks. intro H. apply in_flat_map in H as (name & _ & H).
-  apply reg_In_site in H as (-> & pre & post & E & ->). exists pre, post. split; [exact E|lia].
-Qed.
+Lemma tree_loop_ticks_NoDup setup loop : NoDup (tree_loop_ticks setup loop).
+Proof. rewrite tree_loop_ticks_flat. apply loop_ticks_NoDup. Qed.
 
+(* the k-th call site of display n - wherever it sits - is ticked through its own variable, with its style *)
 Lemma tree_site_ticked setup loop pre n sty post :
-  flats setup = pre ++ (n, sty) :: post ->
+  flats setup ++ flats loop = pre ++ (n, sty) :: post ->
   In (n, count_name n pre, sty) (tree_loop_ticks setup loop) /\ NoDup (tree_loop_ticks setup loop).
-Proof. intro E. rewrite tree_loop_ticks_flat. apply (setup_site_ticked _ _ _ _ _ _ E). Qed.
+Proof. intro E. rewrite tree_loop_ticks_flat. apply (site_ticked _ _ _ _ _ _ E). Qed.
 
 Lemma tree_tick_has_site setup loop n k sty :
   In (n, k, sty) (tree_loop_ticks setup loop) ->
-  exists pre post, flats setup = pre ++ (n, sty) :: post /\ k = count_name n pre.
+  exists pre post, flats setup ++ flats loop = pre ++ (n, sty) :: post /\ k = count_name n pre.
 Proof. rewrite tree_loop_ticks_flat. apply loop_tick_has_site. Qed.
 
 Lemma tree_occurrence_ticked setup loop n sty :
-  occurs (SAnim n sty) setup -> exists k, In (n, k, sty) (tree_loop_ticks setup loop).
+  occurs (SAnim n sty) setup \/ occurs (SAnim n sty) loop -> exists k, In (n, k, sty) (tree_loop_ticks setup loop).
 Proof.
-  intro H. apply occurs_flats in H. apply in_split in H as (pre & post & E).
-  exists (count_name n pre). exact (proj1 (tree_site_ticked _ loop _ _ _ _ E)).
+  intro H. assert (Hin : In (n, sty) (flats setup ++ flats loop)).
+  { apply in_or_app. destruct H as [H|H]; [left|right]; apply occurs_flats; exact H. }
+  apply in_split in Hin as (pre & post & E).
+  exists (count_name n pre). exact (proj1 (tree_site_ticked _ _ _ _ _ _ E)).
 Qed.
 
 Lemma tree_tick_occurs setup loop n k sty :
-  In (n, k, sty) (tree_loop_ticks setup loop) -> occurs (SAnim n sty) setup.
+  In (n, k, sty) (tree_loop_ticks setup loop) -> occurs (SAnim n sty) setup \/ occurs (SAnim n sty) loop.
 Proof.
-  intro H. apply tree_tick_has_site in H as (pre & post & E & _). apply flats_occurs.
-  rewrite E. apply in_or_app. right. left. reflexivity.
+  intro H. apply tree_tick_has_site in H as (pre & post & E & _).
+  assert (Hin : In (n, sty) (flats setup ++ flats loop)).
+  { rewrite E. apply in_or_app. right. left. reflexivity. }
+  apply in_app_or in Hin as [Hin|Hin]; [left|right]; apply flats_occurs; exact Hin.
 Qed.
-
-Lemma tree_injected_partial setup :
-  tree_loop_ticks setup [] = tree_all_vars setup [] /\ NoDup (tree_loop_ticks setup []).
-Proof.
-  rewrite tree_loop_ticks_flat, tree_all_vars_flat. split; [apply loop_ticks_all_vars|apply loop_ticks_NoDup].
-Qed.
-
-Lemma tree_loop_site_never_ticked setup loop pre n sty post :
-  flats loop = pre ++ (n, sty) :: post ->
-  In (n, count_name n (flats setup) + count_name n pre, sty) (tree_all_vars setup loop) /\
-  forall sty', ~ In (n, count_name n (flats setup) + count_name n pre, sty') (tree_loop_ticks setup loop).
-Proof. intro E. rewrite tree_loop_ticks_flat, tree_all_vars_flat. apply (loop_site_never_ticked _ _ _ _ _ _ E). Qed.
 
 Lemma tree_occurrence_ticked_iff setup loop n sty :
-  occurs (SAnim n sty) setup <-> exists k, In (n, k, sty) (tree_loop_ticks setup loop).
+  occurs (SAnim n sty) setup \/ occurs (SAnim n sty) loop <-> exists k, In (n, k, sty) (tree_loop_ticks setup loop).
 Proof.
   split; [apply tree_occurrence_ticked|]. intros [k Hk]. exact (tree_tick_occurs _ _ _ _ _ Hk).
+Qed.
+
+(* no guard any more: loop() ticks exactly the declared variables, none twice *)
+Lemma NoDup_reg_sites sites : forall r,
+  NoDup r -> (forall n k sty, In (n, k, sty) r -> k < reg_counter n r) -> 
+  NoDup (reg_sites sites r) /\ (forall n k sty, In (n, k, sty) (reg_sites sites r) -> k < reg_counter n (reg_sites sites r)).
+Proof.
+  induction sites as [|[n0 s0] rest IH]; intros r Hr Hb; [split; assumption|].
+  unfold reg_sites. cbn [fold_left fst snd]. fold (reg_sites rest (r ++ [(n0, reg_counter n0 r, s0)])).
+  apply IH.
+  - apply NoDup_app_intro; [exact Hr|constructor; [intros []|constructor]|].
+    intros [[n k] sty] Hin [E|[]]. inversion E; subst. specialize (Hb _ _ _ Hin). lia.
+  - intros n k sty Hin. rewrite reg_counter_app, reg_counter_single.
+    apply in_app_or in Hin as [Hin|[E|[]]].
+    + specialize (Hb _ _ _ Hin). destruct (n0 =? n); lia.
+    + inversion E; subst. rewrite Z.eqb_refl. lia.
+Qed.
+
+Lemma tree_all_vars_NoDup setup loop : NoDup (tree_all_vars setup loop).
+Proof.
+  unfold tree_all_vars. rewrite tree_registry_flat.
+  apply (NoDup_reg_sites _ []); [constructor|intros n k sty []].
+Qed.
+
+Lemma tree_injected setup loop :
+  (forall v, In v (tree_all_vars setup loop) <-> In v (tree_loop_ticks setup loop)) /\
+  NoDup (tree_loop_ticks setup loop) /\ NoDup (tree_all_vars setup loop).
+Proof.
+  split; [apply tree_vars_ticked|]. split; [apply tree_loop_ticks_NoDup|apply tree_all_vars_NoDup].
+Qed.
+
+(* a call site anywhere inside the main loop (nested or not) is declared and ticked *)
+Lemma tree_loop_site_ticked setup loop pre n sty post :
+  flats loop = pre ++ (n, sty) :: post ->
+  In (n, count_name n (flats setup) + count_name n pre, sty) (tree_all_vars setup loop) /\
+  In (n, count_name n (flats setup) + count_name n pre, sty) (tree_loop_ticks setup loop) /\
+  NoDup (tree_loop_ticks setup loop).
+Proof.
+  intro E. rewrite tree_vars_ticked, tree_loop_ticks_flat.
+  destruct (loop_site_ticked (flats setup) (flats loop) pre n sty post E) as (_ & H & N).
+  split; [exact H|split; [exact H|exact N]].
+Qed.
+
+(* a call site anywhere inside a function body is declared and ticked *)
+Lemma flats_concat_In f funs : In f funs -> incl (flats f) (flats (concat funs)).
+Proof.
+  intros Hf x Hx. induction funs as [|g funs IH]; [destruct Hf|].
+  cbn [concat]. rewrite flats_app. apply in_or_app. destruct Hf as [->|Hf]; [left; exact Hx|right; auto].
+Qed.
+
+Lemma prog_function_site_ticked setup loop funs f n sty :
+  In f funs -> occurs (SAnim n sty) f ->
+  exists k, In (n, k, sty) (prog_ticks setup loop funs) /\ In (n, k, sty) (prog_vars setup loop funs) /\
+            NoDup (prog_ticks setup loop funs).
+Proof.
+  intros Hf Ho. unfold prog_ticks, prog_vars.
+  assert (Hin : In (n, sty) (flats setup ++ flats (loop ++ concat funs))).
+  { apply in_or_app. right. rewrite flats_app. apply in_or_app. right.
+    apply (flats_concat_In f funs Hf). apply occurs_flats. exact Ho. }
+  apply in_split in Hin as (pre & post & E).
+  destruct (tree_site_ticked _ _ _ _ _ _ E) as [H N].
+  exists (count_name n pre). split; [exact H|]. split; [apply tree_vars_ticked; exact H|exact N].
 Qed.
 
 Lemma flats_occurs_iff n sty b : In (n, sty) (flats b) <-> occurs (SAnim n sty) b.
@@ -252,7 +320,7 @@ Proof. split; [apply flats_occurs|apply occurs_flats]. Qed.
 
 Lemma nested_walks_refine setup loop :
   tree_loop_ticks setup loop = loop_ticks (flats setup) (flats loop) /\
-  tree_all_vars setup loop = all_vars (flats setup) (flats loop) /\
+  (forall v, In v (tree_all_vars setup loop) <-> In v (all_vars (flats setup) (flats loop))) /\
   parser_ticks setup loop = sorted_set (map fst (flats setup ++ flats loop)).
 Proof. split; [apply tree_loop_ticks_flat|split; [apply tree_all_vars_flat|apply parser_ticks_flat]]. Qed.
 
@@ -274,6 +342,16 @@ Proof.
   eapply occ_deeper; [left; reflexivity|left; reflexivity|].
   apply occ_here. left. reflexivity.
 Qed.
+
+(* the two former witnesses: a call site inside `while True:` (guarded by an if) and one inside a function *)
+Lemma ex_loop_and_function_sites :
+  tree_loop_ticks [SOther] [SBlock KIf [[SAnim 0 Scroll; SOther]]] = [(0, 0, Scroll)] /\
+  prog_ticks [SOther] [SOther] [[SAnim 0 Scroll]] = [(0, 0, Scroll)] /\
+  prog_vars [SAnim 1 Blink] [SBlock KIf [[SAnim 0 Scroll]]] [[SAnim 0 Bounce]; [SOther; SAnim 1 Scroll]] =
+    [(1, 0, Blink); (0, 0, Scroll); (0, 1, Bounce); (1, 1, Scroll)] /\
+  prog_ticks [SAnim 1 Blink] [SBlock KIf [[SAnim 0 Scroll]]] [[SAnim 0 Bounce]; [SOther; SAnim 1 Scroll]] =
+    [(0, 0, Scroll); (0, 1, Bounce); (1, 0, Blink); (1, 1, Scroll)].
+Proof. repeat split; reflexivity. Qed.
 
 (* a name collection that follows try bodies only would leave the status display without a tick *)
 Lemma ex_forgetful_walk_differs :
